@@ -25,4 +25,29 @@ def refReport (m : Module) : List String :=
 /-- every reference resolves -/
 def consistent (m : Module) : Bool := m.refs.all fun r => m.has r.ns r.target
 
+/-! ### the `THIS.` convention (`check_axis_descr_refs`, `is_valid_structure_component`)
+
+    Inside a TYPEDEF_CHARACTERISTIC an AXIS_PTS_REF / CURVE_AXIS_REF may read `THIS.x`: it designates the component `x` of
+    the TYPEDEF_STRUCTUREs that use the typedef as a STRUCTURE_COMPONENT. The rule applies when no INSTANCE uses the
+    typedef directly and at least one structure contains it; otherwise the text `THIS.x` is looked up like any object name. -/
+
+structure ThisCase where
+  direct : Bool                          -- some INSTANCE has this typedef as its type
+  objects : List String                  -- names `x` for which an object literally named `THIS.x` exists
+  structs : List (Bool × List String)    -- per TYPEDEF_STRUCTURE: does it contain the typedef; its component names
+  refs : List String                     -- the `x` of the `THIS.x` references of the typedef
+  deriving Repr, Inhabited
+
+def ThisCase.containing (c : ThisCase) : List (List String) := (c.structs.filter (·.1)).map (·.2)
+
+/-- `is_valid_structure_component`: every containing structure has a component of that name -/
+def validComponent (x : String) (containing : List (List String)) : Bool := containing.all fun comps => comps.contains x
+
+/-- the names `check()` reports for the `THIS.` references of one TYPEDEF_CHARACTERISTIC -/
+def thisReport (c : ThisCase) : List String :=
+  c.refs.filterMap fun x =>
+    if !c.direct && !c.containing.isEmpty then
+      if validComponent x c.containing then none else some x
+    else if c.objects.contains x then none else some ("THIS." ++ x)
+
 end A2l.Gr
